@@ -91,7 +91,7 @@ func TestVerif(t *testing.T) {
 		for _, n := range names {
 			add(rh.RunFixed(t, "fixed:"+n, "all", rh.Pools{}, w[n], mon, 1))
 		}
-		n := c.N(24, 600)
+		n := c.N(24, 300)
 		sm := rh.NewStrMaterial(c.Rand.Fork())
 		for i := 0; i < n; i++ {
 			prof := []string{"all", "all", "cidr", "keyed"}[c.Rand.Intn(4)]
@@ -103,5 +103,11 @@ func TestVerif(t *testing.T) {
 			add(rh.RunGenerated(t, fmt.Sprintf("gen-%d", i), g, mon, nm, 1))
 		}
 	}
-	c.WriteCasesV("cases.v", rh.CasesFile(hs))
+	if c.Thorough() && c.Replay == "" {
+		for _, f := range rh.Stress(c.Rand.Fork(), 8, 3000) {
+			c.Fail(f.Sig, f.Detail, "concurrent stress phase (thorough tier)")
+		}
+		c.Count("stress-phase")
+	}
+	rh.WriteCases(c, hs)
 }
